@@ -29,9 +29,10 @@ type Fault struct {
 
 // BrokerCfg configures the conforming broker model.
 type BrokerCfg struct {
-	Method  string `json:"method"`  // QoS 2 receiver method: "A" deliver on PUBLISH, "B" deliver on PUBREL
-	Session string `json:"session"` // "keep" | "lose" (state forgotten at every connect, sessionPresent=0)
-	Echo    bool   `json:"echo"`    // forward matching publishes back to the client (inbound traffic)
+	Method  string `json:"method"`          // QoS 2 receiver method: "A" deliver on PUBLISH, "B" deliver on PUBREL
+	Session string `json:"session"`         // "keep" | "lose" (state forgotten at every connect, sessionPresent=0)
+	Echo    bool   `json:"echo"`            // forward matching publishes back to the client (inbound traffic)
+	Grant   string `json:"grant,omitempty"` // SUBACK return codes: "" as requested, "low" one level below the request (0 stays 0), "hostile" failure and reserved codes (0x80, 0x03, 0x7f, 0xff) mixed with valid ones
 }
 
 // Delivery is one onward delivery by the broker.
@@ -310,6 +311,20 @@ func (b *Broker) process(c *memnet.Conn, bc *bconn, p *mqttref.Packet, kind stri
 		for i, s := range p.Subs {
 			b.Subs[s.Filter] = s.QoS
 			codes[i] = s.QoS
+		}
+		for i, s := range p.Subs {
+			switch b.Cfg.Grant {
+			case "low":
+				if codes[i] > 0 {
+					codes[i]--
+				}
+			case "hostile":
+				h := 0
+				for _, ch := range s.Filter {
+					h = h*31 + int(ch)
+				}
+				codes[i] = []byte{0x80, 0x03, 0x7f, 0xff, 0x02, 0x00, 0x01, 0x80}[(h+int(p.ID))%8]
+			}
 		}
 		if b.SubackOverride != nil {
 			if o := b.SubackOverride(p); o != nil {
